@@ -942,3 +942,27 @@ Proof.
       * exists es'. unfold gstep. rewrite E. split; [exact Hi|exact Hs].
 Qed.
 End Refine.
+
+(* ---------- the code as it is: the witness of the stale last user ---------- *)
+Fixpoint nodupb (l : list nat) : bool :=
+  match l with [] => true | x :: r => negb (mem_nat x r) && nodupb r end.
+Lemma nodupb_ok l : nodupb l = true -> NoDup l.
+Proof.
+  induction l as [|x l IH]; intros H; [constructor|]. cbn in H. apply andb_true_iff in H. destruct H as [H1 H2].
+  constructor; [|now apply IH]. intros Hin. apply mem_nat_iff in Hin. rewrite Hin in H1. discriminate.
+Qed.
+Definition norepb (p : prog) : bool := forallb (fun t => nodupb (map fst t)) p.
+Lemma norepb_ok p : norepb p = true -> norep p.
+Proof.
+  intros H k. unfold task_at. destruct (nth_in_or_default k p []) as [Hin|Hd]; [|rewrite Hd; constructor].
+  unfold norepb in H. rewrite forallb_forall in H. apply nodupb_ok. now apply H.
+Qed.
+
+Theorem gate_unguarded_refuted : exists p es t1 t2, norep p /\ t1 <> t2 /\
+  g_st (grun false p es) t1 = Running /\ g_st (grun false p es) t2 = Running /\
+  conflict (task_at p t1) (task_at p t2).
+Proof.
+  exists gate_witness_p, gate_witness_es, 4, 5. split; [apply norepb_ok; reflexivity|].
+  split; [discriminate|]. split; [vm_compute; reflexivity|]. split; [vm_compute; reflexivity|].
+  apply conflictb_iff. vm_compute. reflexivity.
+Qed.
